@@ -866,3 +866,272 @@ func c14ReadLines(text string) (*c14Schema, bool) {
 	}
 	return s, true
 }
+
+// ---- degenerate but valid schemas ---------------------------------------------------------------------------
+//
+// c14RandSchema always declares at least one type with a constructor, puts the constructors first and the
+// functions behind them (some constructors may follow behind a second ---types---). A schema of the documented
+// subset may just as well consist of functions only (all of them over builtin types), of constructors only, of
+// enums only, of one single definition, of section markers with nothing between them, or have its sections the
+// other way round. c14Degenerate builds those shapes from the same vocabulary; what each declares is known from
+// its construction, so the parser / classification / declaration oracles apply unchanged.
+
+type c14Shape struct {
+	tag string
+	s   *c14Schema
+}
+
+type c14Builder struct {
+	r     *Rand
+	used  map[uint32]bool
+	words []string
+	fnSeq int
+}
+
+func c14NewBuilder(r *Rand) *c14Builder {
+	b := &c14Builder{r: r, used: map[uint32]bool{}}
+	b.words = append(b.words, c14TypeWords...)
+	for i := len(b.words) - 1; i > 0; i-- {
+		j := r.Intn(i + 1)
+		b.words[i], b.words[j] = b.words[j], b.words[i]
+	}
+	return b
+}
+
+func (b *c14Builder) crc() uint32 {
+	for {
+		v := uint32(b.r.U64())
+		switch b.r.Intn(4) {
+		case 0:
+			v &= 0xfff
+		case 1:
+			v |= 0x80000000
+		}
+		if v != 0 && !b.used[v] {
+			b.used[v] = true
+			return v
+		}
+	}
+}
+
+// word: a type word not used before in this schema, sometimes in a namespace
+func (b *c14Builder) word() (ns, w string) {
+	w = b.words[0]
+	b.words = b.words[1:]
+	return c14Namespaces[b.r.Intn(len(c14Namespaces))], w
+}
+
+// params over the builtin types and the given declared types; a flags word when a parameter is conditional
+func (b *c14Builder) params(min, max int, types []string) []c14Param {
+	r := b.r
+	n := min
+	if max > min {
+		n += r.Intn(max - min + 1)
+	}
+	used := map[string]bool{"flags": true}
+	var ps []c14Param
+	anyOpt := false
+	for i := 0; i < n; i++ {
+		name := c14ParamWords[r.Intn(len(c14ParamWords))]
+		for used[name] {
+			name = c14ParamWords[r.Intn(len(c14ParamWords))]
+		}
+		used[name] = true
+		p := c14Param{Name: name, Type: c14Prims[r.Intn(len(c14Prims))]}
+		if len(types) > 0 && r.Intn(2) == 0 {
+			p.Type = types[r.Intn(len(types))]
+		}
+		if r.Intn(3) == 0 {
+			p.Opt, p.Bit, anyOpt = true, []int{0, 1, 2, 7, 15, 30, 31}[r.Intn(7)], true
+			if r.Intn(3) == 0 {
+				p.Type = "true"
+			}
+		}
+		if p.Type != "true" && r.Intn(4) == 0 {
+			p.Vec = true
+		}
+		if r.Intn(5) == 0 {
+			p.Doc = c14DocText(r)
+		}
+		ps = append(ps, p)
+	}
+	if anyOpt {
+		ps = append([]c14Param{{Name: "flags", Type: "bitflags"}}, ps...)
+	}
+	return ps
+}
+
+func (b *c14Builder) doc(d *c14Def) *c14Def {
+	if b.r.Intn(3) == 0 {
+		d.Doc = c14DocText(b.r)
+	}
+	if !d.Func && b.r.Intn(6) == 0 {
+		d.TypeDoc = c14DocText(b.r)
+	}
+	return d
+}
+
+// enum: a type with n constructors, none with a parameter; returns the type's name
+func (b *c14Builder) enum(n int) (string, []*c14Def) {
+	ns, w := b.word()
+	sfx := b.r.Intn(len(c14CtorSuffix))
+	var out []*c14Def
+	for k := 0; k < n; k++ {
+		out = append(out, b.doc(&c14Def{Name: ns + lowerFirst(w) + c14CtorSuffix[(sfx+k)%len(c14CtorSuffix)], CRC: b.crc(), Result: ns + w}))
+	}
+	if b.r.Intn(3) == 0 {
+		out[0].Name = ns + lowerFirst(w) // named like its type
+	}
+	return ns + w, out
+}
+
+// structs: a type with n constructors (n = 1: a single struct; n > 1: an interface), the first with parameters
+func (b *c14Builder) structs(n int, types []string) (string, []*c14Def) {
+	ns, w := b.word()
+	sfx := b.r.Intn(len(c14CtorSuffix))
+	var out []*c14Def
+	for k := 0; k < n; k++ {
+		d := &c14Def{Name: ns + lowerFirst(w) + c14CtorSuffix[(sfx+k)%len(c14CtorSuffix)], CRC: b.crc(), Result: ns + w}
+		if k == 0 || b.r.Intn(3) != 0 {
+			d.Params = b.params(1, 6, types)
+		}
+		out = append(out, b.doc(d))
+	}
+	if b.r.Intn(3) == 0 {
+		out[0].Name = ns + lowerFirst(w)
+	}
+	return ns + w, out
+}
+
+// fn: a function over the builtin types and the given declared types
+func (b *c14Builder) fn(types []string, maxParams int) *c14Def {
+	r := b.r
+	verbs := []string{"get", "set", "send", "delete", "check", "resolve", "update", "search", "ping", "int", "vector"}
+	_, w := b.word()
+	b.fnSeq++
+	d := &c14Def{Name: fmt.Sprintf("%s%s%s", c14Namespaces[r.Intn(len(c14Namespaces))], verbs[r.Intn(len(verbs))], w), CRC: b.crc(), Func: true}
+	d.Params = b.params(0, maxParams, types)
+	switch k := r.Intn(4); {
+	case k == 0 && len(types) > 0:
+		d.Result = types[r.Intn(len(types))]
+	case k == 1 && len(types) > 0:
+		d.Result, d.ResVec = types[r.Intn(len(types))], true
+	case k == 2:
+		d.Result, d.ResVec = c14Prims[r.Intn(len(c14Prims))], true
+	default:
+		d.Result = "Bool"
+	}
+	return b.doc(d)
+}
+
+func c14Items(parts ...interface{}) *c14Schema {
+	s := &c14Schema{}
+	for _, p := range parts {
+		switch v := p.(type) {
+		case string: // types | functions | blank | a raw line (excluded definition) | a comment ("//…")
+			switch {
+			case v == "types" || v == "functions" || v == "blank":
+				s.items = append(s.items, c14Item{kind: v})
+			case strings.HasPrefix(v, "//"):
+				s.items = append(s.items, c14Item{kind: "comment", text: v[2:]})
+			default:
+				s.items = append(s.items, c14Item{kind: "def", def: &c14Def{raw: v}})
+			}
+		case *c14Def:
+			s.items = append(s.items, c14Item{kind: "def", def: v})
+		case []*c14Def:
+			for _, d := range v {
+				s.items = append(s.items, c14Item{kind: "def", def: d})
+			}
+		}
+	}
+	return s
+}
+
+// c14Degenerate: one schema per degenerate shape (fresh random content on every call).
+func c14Degenerate(r *Rand) []c14Shape {
+	var out []c14Shape
+	add := func(tag string, s *c14Schema) { out = append(out, c14Shape{tag, s}) }
+	nb := func() *c14Builder { return c14NewBuilder(r) }
+	fns := func(b *c14Builder, n int, types []string) []*c14Def {
+		var l []*c14Def
+		for i := 0; i < n; i++ {
+			max := 4
+			if i == 1 {
+				max = 8 // more than five parameters: one params argument
+			}
+			l = append(l, b.fn(types, max))
+		}
+		return l
+	}
+	builtinLines := []interface{}{"boolFalse#bc799737 = Bool;", "boolTrue#997275b5 = Bool;", "true#3fedd339 = True;",
+		"vector#1cb5c415 {t:Type} # [ t ] = Vector t;", "int ? = Int;", "long ? = Long;", "string ? = String;"}
+
+	// functions only: no constructor anywhere
+	b := nb()
+	add("only-functions", c14Items("functions", fns(b, 1+r.Intn(4), nil)))
+	b = nb()
+	add("only-functions-after-empty-types", c14Items("types", "functions", fns(b, 1+r.Intn(4), nil)))
+	b = nb()
+	add("only-functions-after-builtin-types", c14Items(append(append([]interface{}{"types"}, builtinLines[:2+r.Intn(len(builtinLines)-1)]...), "functions", fns(b, 1+r.Intn(4), nil))...))
+	b = nb()
+	add("only-functions-commented", c14Items("// service schema", "blank", "functions", "// ---types---", fns(b, 2, nil), "blank", "// end"))
+	b = nb()
+	add("only-functions-then-empty-types", c14Items("functions", fns(b, 1+r.Intn(3), nil), "types"))
+	// one definition
+	b = nb()
+	add("one-function", c14Items("functions", b.fn(nil, 3)))
+	b = nb()
+	_, e1 := b.enum(1)
+	add("one-enum-constructor", c14Items(e1))
+	b = nb()
+	_, s1 := b.structs(1, nil)
+	add("one-struct-constructor", c14Items(s1))
+	b = nb()
+	_, s1 = b.structs(1, nil)
+	add("one-struct-constructor-under-types", c14Items("types", s1))
+	// only constructors / only enums, with and without markers; a functions section that is empty
+	b = nb()
+	ta, ea := b.enum(1 + r.Intn(4))
+	tb, eb := b.enum(1 + r.Intn(3))
+	add("only-enums", c14Items(ea, eb))
+	b = nb()
+	ta, ea = b.enum(2)
+	tb, eb = b.enum(1)
+	add("only-enums-empty-functions", c14Items("types", ea, eb, "functions"))
+	b = nb()
+	ta, ea = b.enum(1 + r.Intn(3))
+	tb, sb := b.structs(1, []string{ta})
+	tc, ic := b.structs(2+r.Intn(2), []string{ta, tb})
+	add("only-constructors", c14Items(ea, sb, ic))
+	b = nb()
+	ta, ea = b.enum(2)
+	tb, sb = b.structs(1, []string{ta})
+	tc, ic = b.structs(2, []string{ta, tb})
+	add("only-constructors-empty-functions", c14Items(ea, sb, ic, "functions", "// none yet"))
+	b = nb()
+	tb, sb = b.structs(1, nil)
+	add("empty-functions-then-types", c14Items("functions", "types", sb))
+	// nothing declared at all
+	add("only-markers", c14Items("types", "functions"))
+	add("only-markers-reversed", c14Items("functions", "types", "blank"))
+	add("only-comments", c14Items("// nothing", "blank", "// @unknown x"))
+	add("only-builtins", c14Items(append(append([]interface{}{"types"}, builtinLines...), "functions", "invokeWithLayer#da9b0d0d {X:Type} layer:int query:!X = X;")...))
+	// the sections the other way round, and several of each
+	b = nb()
+	ta, ea = b.enum(2)
+	tb, sb = b.structs(1, []string{ta})
+	tc, ic = b.structs(2, []string{ta})
+	all := []string{ta, tb, tc}
+	add("functions-before-types", c14Items("functions", fns(b, 1+r.Intn(3), all), "types", ea, sb, ic))
+	b = nb()
+	ta, ea = b.enum(1 + r.Intn(2))
+	tb, sb = b.structs(1, []string{ta})
+	tc, ic = b.structs(2, []string{tb})
+	all = []string{ta, tb, tc}
+	add("alternating-sections", c14Items("functions", fns(b, 1, all), "types", ea, "functions", fns(b, 2, all), "types", sb, ic[:1], "functions", "types", ic[1:], "functions", fns(b, 1, all)))
+	b = nb()
+	tb, sb = b.structs(1, nil)
+	add("one-function-one-constructor-reversed", c14Items("functions", b.fn([]string{tb}, 2), "types", sb))
+	return out
+}
